@@ -91,6 +91,13 @@ def node_effects(n: cfgmod.Node, tables: List[str], aliases: Dict[str, Tuple[str
     if a is None:
         return out
     roots: List[ast.AST]
+
+    def _tbl(e: ast.AST) -> Optional[str]:
+        """A table of self, named directly or through a local bound to the whole table on this path (`held = self._pending_profiles`)."""
+        if isinstance(e, ast.Name) and aliases.get(e.id, ("", ""))[0] == "@table":
+            return aliases[e.id][1]
+        return _self_table(e, tables)
+
     if n.kind == "for":
         roots = [a.iter]
     elif n.kind == "with":
@@ -102,11 +109,13 @@ def node_effects(n: cfgmod.Node, tables: List[str], aliases: Dict[str, Tuple[str
         if isinstance(root, ast.Assign) and len(root.targets) == 1 and isinstance(root.targets[0], ast.Name):
             v = root.value
             tgt = root.targets[0].id
-            if isinstance(v, ast.Subscript) and _self_table(v.value, tables):
-                aliases[tgt] = (_self_table(v.value, tables), norm(v.slice))
+            if isinstance(v, ast.Subscript) and _tbl(v.value):
+                aliases[tgt] = (_tbl(v.value), norm(v.slice))
             elif isinstance(v, ast.Call) and isinstance(v.func, ast.Attribute) and v.func.attr == "get" \
-                    and _self_table(v.func.value, tables) and v.args:
-                aliases[tgt] = (_self_table(v.func.value, tables), norm(v.args[0]))
+                    and _tbl(v.func.value) and v.args:
+                aliases[tgt] = (_tbl(v.func.value), norm(v.args[0]))
+            elif _self_table(v, tables):
+                aliases[tgt] = ("@table", _self_table(v, tables))
             else:
                 aliases.pop(tgt, None)
         calls = [c for c in ast.walk(root) if isinstance(c, ast.Call)]
@@ -123,13 +132,13 @@ def node_effects(n: cfgmod.Node, tables: List[str], aliases: Dict[str, Tuple[str
                 elif f.attr in ("add", "append", "remove", "discard", "pop", "clear", "update"):
                     tgt = f.value
                     struct_key = None
-                    if isinstance(tgt, ast.Subscript) and _self_table(tgt.value, tables):
-                        struct_key = (_self_table(tgt.value, tables), norm(tgt.slice))
-                    elif isinstance(tgt, ast.Name) and tgt.id in aliases:
+                    if isinstance(tgt, ast.Subscript) and _tbl(tgt.value):
+                        struct_key = (_tbl(tgt.value), norm(tgt.slice))
+                    elif isinstance(tgt, ast.Name) and tgt.id in aliases and aliases[tgt.id][0] != "@table":
                         struct_key = aliases[tgt.id]
-                    elif _self_table(tgt, tables) and f.attr in ("pop", "clear", "update"):
+                    elif _tbl(tgt) and f.attr in ("pop", "clear", "update"):
                         k = norm(c.args[0]) if c.args else "*"
-                        out.append(Effect("del" if f.attr in ("pop", "clear") else "set", _self_table(tgt, tables), k, c))
+                        out.append(Effect("del" if f.attr in ("pop", "clear") else "set", _tbl(tgt), k, c))
                         continue
                     if struct_key:
                         kind = "member+" if f.attr in ("add", "append", "update") else "member-"
@@ -137,18 +146,18 @@ def node_effects(n: cfgmod.Node, tables: List[str], aliases: Dict[str, Tuple[str
         if isinstance(root, (ast.Assign, ast.AugAssign, ast.AnnAssign)):
             targets = root.targets if isinstance(root, ast.Assign) else [root.target]
             for t in targets:
-                if isinstance(t, ast.Subscript) and _self_table(t.value, tables):
+                if isinstance(t, ast.Subscript) and _tbl(t.value):
                     val = root.value
                     kind = "set"
-                    if isinstance(val, ast.Name) and aliases.get(val.id) == (_self_table(t.value, tables), norm(t.slice)):
+                    if isinstance(val, ast.Name) and aliases.get(val.id) == (_tbl(t.value), norm(t.slice)):
                         kind = "reset"  # re-binds the value that was read from the same slot
-                    out.append(Effect(kind, _self_table(t.value, tables), norm(t.slice), root, val))
+                    out.append(Effect(kind, _tbl(t.value), norm(t.slice), root, val))
                 elif _self_table(t, tables):
                     out.append(Effect("replace", _self_table(t, tables), "*", root))
         if isinstance(root, ast.Delete):
             for t in root.targets:
-                if isinstance(t, ast.Subscript) and _self_table(t.value, tables):
-                    out.append(Effect("del", _self_table(t.value, tables), norm(t.slice), root))
+                if isinstance(t, ast.Subscript) and _tbl(t.value):
+                    out.append(Effect("del", _tbl(t.value), norm(t.slice), root))
     return out
 
 
@@ -835,6 +844,9 @@ def r4_r5_copies(ctx: Context, rule4: str = "C04.R4", rule5: str = "C04.R5") -> 
             want = "copy" if kind == "__copy__" else "deepcopy"
             for pname, arg in supplied.items():
                 if pname in NESTED_FIELD_OF_PARAM:
+                    where_arg = arg
+                    if isinstance(arg, ast.Name):
+                        arg = resolve_local(fn, arg)  # `resources = copy(self.resources)` bound once before the constructor call
                     calls = [c for c in ast.walk(arg) if isinstance(c, ast.Call) and call_name(c) in ("copy", "deepcopy")]
                     good = calls and all(call_name(c) == want for c in calls)
                     # every element must be copied: a conditional / filtered element expression passes some originals through
@@ -845,7 +857,7 @@ def r4_r5_copies(ctx: Context, rule4: str = "C04.R4", rule5: str = "C04.R5") -> 
                                 good = False
                         if isinstance(x, ast.IfExp):
                             good = False
-                    ctx.check(bool(good), rule, f"{cname}.{kind}|nested {pname} via {want}()", loc(arg),
+                    ctx.check(bool(good), rule, f"{cname}.{kind}|nested {pname} via {want}()", loc(where_arg),
                               f"`{norm(arg)[:60]}`",
                               f"{cname}.{kind} passes `{norm(arg)[:60]}` for `{pname}`: nested state must go through {want}()")
             # Resources: totals, not the current vector
